@@ -74,6 +74,24 @@ def _cases(tier, rng):
         for cfg in cfgs:
             yield {"prog": prog, "cfg": cfg, "seed": rng.randrange(10**6)}
         q += 1
+    # a storage assignment that mixes an in-memory backend with file_array and no run folder given (a temporary one is
+    # needed as soon as one backend needs files)
+    for _ in range(6 if tier == "quick" else 60):
+        prog = progs.gen_map_program(rng, n_funcs=rng.randint(1, 3))
+        yield {"prog": prog, "cfg": rng.choice(("thread/nofolder-mix", "shuffle-random/nofolder-mix", "async-thread/nofolder-mix")),
+               "seed": rng.randrange(10**6)}
+    # mapped axes of length zero (nothing to compute along them; every backend stores and returns empty arrays)
+    want0, tries = (8 if tier == "quick" else 80), 0
+    while want0 and tries < 20000:
+        tries += 1
+        prog = progs.gen_map_program(rng, n_funcs=rng.randint(1, 2), sizes_pool=(0, 2, 3), allow_generator=False,
+                                     allow_internal=False)
+        if not any(0 in d.get("shape", ()) for d in prog["inputs"].values()) or \
+                any(len(d.get("shape", ())) > 1 for d in prog["inputs"].values()):
+            continue
+        want0 -= 1
+        for cfg in ("thread/file_array", "shuffle-reverse/dict", "shuffle-random/shared_memory_dict", "async-thread/file_array"):
+            yield {"prog": prog, "cfg": cfg, "seed": rng.randrange(10**6)}
     # None-valued elements that a downstream mapped function reads (a stored None is a value, not a missing element)
     want, tries = (8 if tier == "quick" else 80), 0
     while want and tries < 20000:
@@ -137,6 +155,11 @@ def _check(case):
             ek, storage = c.split("/")
             executor = _mk_executor(ek, seed)
             exs = [executor]
+            if storage == "nofolder-mix":
+                storage = {"": "dict"}
+                f0 = prog["funcs"][seed % len(prog["funcs"])]
+                storage[tuple(f0["outputs"]) if len(f0["outputs"]) > 1 else f0["outputs"][0]] = "file_array"
+                run_folder = None
         p = progs.build_pipeline(prog)
         inputs = progs.real_inputs(prog)
         try:
@@ -155,6 +178,8 @@ def _check(case):
             got = progs.to_nested(res[o].output)
             if got != want[o]:
                 bad.append(f"result-differs:{o}: got {str(got)[:160]} want {str(want[o])[:160]}")
+            if run_folder is None:
+                continue
             try:
                 st = progs.to_nested(load_outputs(o, run_folder=run_folder))
                 if st != want[o]:
